@@ -364,10 +364,10 @@ def main():
         print(f'VIOLATION property={prop} replay={os.path.relpath(path, vpenv.VERIF)} obligation={f["obligation"]!r}{tail}')
         ev['violations'] += 1
 
-    if ess and not unlisted_bf and P.get('bounded') and tier == 'quick' and bres and bres['ok']:
-        # an obligation that states the property failed and the quick corpus shows no failing input: look harder (the
-        # thorough corpus: 65 535-byte strings, longer token sequences, every cut / not-ready schedule) before reporting
-        # the violation without an input
+    if (ess or out_of_reach_msg) and not unlisted_bf and P.get('bounded') and tier == 'quick' and bres and bres['ok']:
+        # an obligation that states the property failed and the quick corpus shows no failing input - or a function this
+        # property needs is out of the verifier's reach on this tree, so that the bounded check is all there is: look harder
+        # (the thorough corpus: 65 535-byte strings, longer token sequences, every cut / not-ready schedule)
         bres2 = bounded_mod.run(scratch, P['bounded'], 'thorough')
         if bres2['ok'] and bres2['results']:
             for c, j in bres2['results'].items():
